@@ -477,6 +477,90 @@ let cmd_mtool args =
     emit ("stdout " ^ hex_encode (ostr out))
   | _ -> failwith "mtool: bad arguments"
 
+(* mrender <preamble hex> <user text hex> <file name hex> <errsexp hex>*: the model of Error::format_for_contents
+   on the errors as the real program dumped them (hook error_sexprs): the text it writes, or "none" *)
+let unh (a : Stdlib.String.t) : Stdlib.String.t = hex_decode (Stdlib.String.sub a 1 (Stdlib.String.length a - 1))
+let rs = function Atom a -> cstr (unh a) | _ -> failwith "rerror: string"
+let ro = function Atom "none" -> None | Atom a -> Some (cstr (unh a)) | _ -> failwith "rerror: option"
+let rls = function L l -> List.map rs l | _ -> failwith "rerror: string list"
+let rp = function
+  | Atom a ->
+    (match Stdlib.String.split_on_char ':' (Stdlib.String.sub a 1 (Stdlib.String.length a - 1)) with
+     | [s; e] -> (nat_of_int (int_of_string s), nat_of_int (int_of_string e))
+     | _ -> failwith "rerror: span")
+  | _ -> failwith "rerror: span"
+let rl = function Atom a -> nat_of_int (int_of_string (Stdlib.String.sub a 1 (Stdlib.String.length a - 1))) | _ -> failwith "rerror: loc"
+let rw = function Atom a -> width_of_atom a | _ -> failwith "rerror: width"
+let rlp = function L l -> List.map rp l | _ -> failwith "rerror: span list"
+let rlw = function L l -> List.map rw l | _ -> failwith "rerror: width list"
+let rn = function Atom a -> n_of_dec a | _ -> failwith "rerror: number"
+
+let rerror_of (x : sexp) : rerror =
+  match x with
+  | L [Atom "MismatchedMuxWidths"; x0; x1] -> RMismatchedMuxWidths (rlp x0, rlw x1)
+  | L [Atom "MismatchedExprWidths"; x0; x1; x2; x3] -> RMismatchedExprWidths (rp x0, rw x1, rp x2, rw x3)
+  | L [Atom "MismatchedWireWidths"; x0; x1; x2; x3] -> RMismatchedWireWidths (rs x0, rw x1, rp x2, rw x3)
+  | L [Atom "MismatchedRegisterDefaultWidths"; x0; x1; x2; x3; x4] -> RMismatchedRegisterDefaultWidths (rs x0, rs x1, rw x2, rp x3, rw x4)
+  | L [Atom "DuplicateRegister"; x0; x1] -> RDuplicateRegister (rs x0, rs x1)
+  | L [Atom "RuntimeMismatchedWidths"] -> RRuntimeMismatchedWidths
+  | L [Atom "DivisionByZero"] -> RDivisionByZero
+  | L [Atom "UndeclaredWireAssigned"; x0; x1; x2] -> RUndeclaredWireAssigned (rs x0, rp x1, ro x2)
+  | L [Atom "UndeclaredWireRead"; x0; x1; x2] -> RUndeclaredWireRead (rs x0, rp x1, ro x2)
+  | L [Atom "NonConstantWireRead"; x0; x1] -> RNonConstantWireRead (rs x0, rp x1)
+  | L [Atom "UnsetWire"; x0; x1] -> RUnsetWire (rs x0, rp x1)
+  | L [Atom "UnsetBuiltinWire"; x0] -> RUnsetBuiltinWire (rs x0)
+  | L [Atom "UnsetUndeclaredWire"; x0] -> RUnsetUndeclaredWire (rs x0)
+  | L [Atom "UnsetRegisterInputWire"; x0; x1] -> RUnsetRegisterInputWire (rs x0, rp x1)
+  | L [Atom "RedeclaredWire"; x0; x1; x2] -> RRedeclaredWire (rs x0, rp x1, rp x2)
+  | L [Atom "DoubleAssignedWire"; x0; x1; x2] -> RDoubleAssignedWire (rs x0, rp x1, rp x2)
+  | L [Atom "DoubleAssignedRegisterWire"; x0; x1; x2] -> RDoubleAssignedRegisterWire (rs x0, rp x1, rp x2)
+  | L [Atom "DoubleDeclaredRegisterOutWire"; x0; x1; x2] -> RDoubleDeclaredRegisterOutWire (rs x0, rp x1, rp x2)
+  | L [Atom "DoubleAssignedFixedOutWire"; x0; x1; x2] -> RDoubleAssignedFixedOutWire (rs x0, rp x1, rs x2)
+  | L [Atom "ConstantAssigned"; x0; x1; x2] -> RConstantAssigned (rs x0, rp x1, rp x2)
+  | L [Atom "RedeclaredBuiltinWire"; x0; x1; x2] -> RRedeclaredBuiltinWire (rs x0, rp x1, rs x2)
+  | L [Atom "PartialFixedInput"; x0; x1; x2] -> RPartialFixedInput (rs x0, rls x1, rls x2)
+  | L [Atom "WireLoop"; x0] -> RWireLoop (rls x0)
+  | L [Atom "InvalidWireWidth"; x0] -> RInvalidWireWidth (rp x0)
+  | L [Atom "InvalidRegisterBankName"; x0; x1] -> RInvalidRegisterBankName (rs x0, rp x1)
+  | L [Atom "InvalidBitIndex"; x0; x1] -> RInvalidBitIndex (rp x0, rn x1)
+  | L [Atom "NonBooleanWidth"; x0] -> RNonBooleanWidth (rp x0)
+  | L [Atom "NoBitWidth"; x0] -> RNoBitWidth (rp x0)
+  | L [Atom "MisorderedBitIndexes"; x0] -> RMisorderedBitIndexes (rp x0)
+  | L [Atom "InvalidConstant"; x0] -> RInvalidConstant (rp x0)
+  | L [Atom "WireTooWide"; x0] -> RWireTooWide (rp x0)
+  | L [Atom "ExpectedStatementFoundExpr"; x0] -> RExpectedStatementFoundExpr (rp x0)
+  | L [Atom "UnterminatedComment"; x0] -> RUnterminatedComment (rl x0)
+  | L [Atom "LexicalError"; x0] -> RLexicalError (rl x0)
+  | L [Atom "InternalParserErrorNear"; x0; x1] -> RInternalParserErrorNear (rp x0, rs x1)
+  | L [Atom "MissingWireWidth"; x0] -> RMissingWireWidth (rp x0)
+  | L [Atom "WireAssignedInDeclaration"; x0] -> RWireAssignedInDeclaration (rp x0)
+  | L [Atom "MissingRegisterWidth"; x0] -> RMissingRegisterWidth (rp x0)
+  | L [Atom "AddedConstWidth"; x0] -> RAddedConstWidth (rp x0)
+  | L [Atom "MissingAssignmentMux"; x0] -> RMissingAssignmentMux (rp x0)
+  | L [Atom "RegisterDeclaredWithWire"; x0] -> RRegisterDeclaredWithWire (rp x0)
+  | L [Atom "NoMuxDefaultOption"; x0] -> RNoMuxDefaultOption (rp x0)
+  | L [Atom "MultipleMuxDefaultOption"; x0] -> RMultipleMuxDefaultOption (rp x0)
+  | L [Atom "UnreachableOptions"; x0] -> RUnreachableOptions (rp x0)
+  | L [Atom "EmptyFile"] -> REmptyFile
+  | L [Atom "UnparseableLine"; x0] -> RUnparseableLine (rs x0)
+  | L [Atom "InvalidToken"; x0] -> RInvalidToken (rl x0)
+  | L [Atom "UnrecognizedToken"; x0; x1] -> RUnrecognizedToken (rp x0, rls x1)
+  | L [Atom "ExtraToken"; x0] -> RExtraToken (rp x0)
+  | L [Atom "IoError"] -> RIoError
+  | L [Atom "FmtError"] -> RFmtError
+  | _ -> failwith "rerror: unknown variant"
+
+let cmd_mrender args =
+  match args with
+  | pre :: user :: fname :: errs ->
+    let fc = new_from_data (bytes_of (hex_decode pre)) (bytes_of (hex_decode user)) (bytes_of (hex_decode fname)) in
+    let es = List.map (fun h -> rerror_of (parse_sexp (hex_decode h))) errs in
+    (match render_all test_uclass fc es with
+     | Some t -> emit ("render " ^ hex_encode (ostr t))
+     | None -> emit "render none");
+    List.iter (fun e -> emit ("spans " ^ Stdlib.String.concat "," (List.map (fun (a, b) -> Printf.sprintf "%d:%d" (int_of_nat a) (int_of_nat b)) (hook_spans e)))) es
+  | _ -> failwith "mrender: bad arguments"
+
 (* lex <texthex> *)
 let token_str (t : token) : Stdlib.String.t =
   match t with
@@ -586,6 +670,7 @@ let dispatch cmd args =
   | "mcli" -> cmd_mcli args
   | "margv" -> cmd_margv args
   | "mtool" -> cmd_mtool args
+  | "mrender" -> cmd_mrender args
   | "region" -> cmd_mregion args
   | "mvalid" -> cmd_mvalid args
   | _ -> emit ("unknown command " ^ cmd)
